@@ -58,4 +58,8 @@ let () =
              | Some N0 -> "V"
              | Some r -> Printf.sprintf "E%04x" (int_of_n r - 1)) in
          Printf.printf "%s\t%s # %s\n" id (String.concat " " (List.map ev_tok evs)) (String.concat " " kinds))
+    | id :: "WS" :: name :: obs :: _ ->
+      (* the key classes a batchable command changed on the real engine must lie in the model's write set *)
+      let o = if obs = "" then [] else List.map n_of_dec (split_on ',' obs) in
+      Printf.printf "%s\t%s\n" id (if ws_covered (bytes_of_hex name) o then "ok" else "outside the write set: " ^ obs)
     | _ -> ())
